@@ -1,7 +1,7 @@
 #!/bin/bash
-# runs every registered quick check in sequence (development aid)
-cd /verif
-for p in $(python3 -c "import json; print(' '.join(c['property_id'] for c in json.load(open('MANIFEST.json'))['checks']))"); do
-  s=$(date +%s); out=$(./check $p quick 2>&1 | tail -3 | tr '\n' ' ' | cut -c1-400); rc=$?
-  echo "$p $(( $(date +%s)-s ))s :: $out"
+# runs every registered quick check in sequence (development aid); full outputs in out/allquick/
+cd /verif; mkdir -p out/allquick
+for p in ${@:-$(python3 -c "import json; print(' '.join(c['property_id'] for c in json.load(open('MANIFEST.json'))['checks']))")}; do
+  s=$(date +%s); ./check $p quick > out/allquick/$p.out 2>&1; rc=$?
+  echo "$p rc=$rc $(( $(date +%s)-s ))s :: $(grep -c ^VIOLATION out/allquick/$p.out) violations, $(grep -c ^INCONCLUSIVE out/allquick/$p.out) inconclusive, $(grep -c ^KNOWN-FINDING out/allquick/$p.out) known :: $(tail -1 out/allquick/$p.out | cut -c1-160)"
 done
